@@ -195,14 +195,18 @@ pub struct Ref<'a> {
     /// TypeScript's own reading of null/undefined (they differ; an optional property may be absent or
     /// undefined, not null).  Used where the compile-time engine is judged (C05-C07), not the validators.
     pub ts_nullish: bool,
+    /// defect model strict_inter_per_member: discriminated unions over intersections are validated through merged branches
+    /// (off where the type was re-materialised by the semantic engine, whose unions carry extra members such as undefined
+    /// for optional properties, so that the compiler's discriminated-union detection does not see them the same way)
+    pub du_model: bool,
 }
 
 impl<'a> Ref<'a> {
     pub fn new(env: &'a Env, mode: Mode) -> Self {
-        Ref { relax_inter: std::cell::Cell::new(false), env, mode, quirk: None, unspec_as: None, ts_nullish: false }
+        Ref { relax_inter: std::cell::Cell::new(false), env, mode, quirk: None, unspec_as: None, ts_nullish: false, du_model: true }
     }
     pub fn with_quirk(env: &'a Env, mode: Mode, q: &'static str) -> Self {
-        Ref { relax_inter: std::cell::Cell::new(false), env, mode, quirk: Some(q), unspec_as: None, ts_nullish: false }
+        Ref { relax_inter: std::cell::Cell::new(false), env, mode, quirk: Some(q), unspec_as: None, ts_nullish: false, du_model: true }
     }
     #[allow(dead_code)]
     fn q(&self, name: &str) -> bool {
@@ -342,6 +346,27 @@ impl<'a> Ref<'a> {
                 _ => No,
             },
             D::Union(ms) => {
+                // a union the compiler recognises as discriminated is validated through the merged shape of each
+                // branch: the per-member reading of intersections does not apply to the branches themselves.
+                // (The compiler decides that on the flattened member list; nested unions are flattened here too, so
+                // that an inner union is never taken for a dispatch of its own.)
+                if self.mode == Mode::Strict && self.q("strict_inter_per_member") && self.du_model {
+                    if let Some(flat) = self.flat_union(ms) {
+                        let shapes = self.du_shapes(&flat);
+                        let mut acc = No;
+                        for (mi, m) in flat.iter().enumerate() {
+                            let r = match &shapes {
+                                Some(sh) if matches!(m, D::Inter(_)) => self.member_fuel(&D::Object { props: sh[mi].clone(), index: None }, v, fuel - 1),
+                                _ => self.member_fuel(m, v, fuel - 1),
+                            };
+                            acc = acc.or(r);
+                            if acc == Yes {
+                                break;
+                            }
+                        }
+                        return acc;
+                    }
+                }
                 let mut acc = No;
                 for m in ms {
                     acc = acc.or(self.member_fuel(m, v, fuel - 1));
@@ -406,6 +431,106 @@ impl<'a> Ref<'a> {
             }
             D::Ref(i) => self.member_fuel(self.env.get(*i), v, fuel - 1),
         }
+    }
+
+    /// What the compiler extracts from a union member when it looks for a discriminated union (printer.rs,
+    /// extract_object_shape): an object type without index signature, a reference to one, or an intersection of
+    /// such whose same-named properties are declared identically or are both required string-literal unions one of
+    /// which contains the other (the narrower one is kept).
+    fn du_shape(&self, d: &D, depth: usize) -> Option<Vec<Prop>> {
+        if depth > 12 {
+            return None;
+        }
+        match self.head(d) {
+            D::Object { props, index: None } => Some(props.clone()),
+            D::Inter(ms) => {
+                let mut acc: Vec<Prop> = vec![];
+                for m in ms {
+                    let shape = self.du_shape(m, depth + 1)?;
+                    for p in shape {
+                        match acc.iter().position(|q| q.key == p.key) {
+                            None => acc.push(p),
+                            Some(i) => {
+                                // (declarations that are the same type may still be spelled differently, which the
+                                // compiler's syntactic comparison tells apart: only the literal case is modelled, every
+                                // other shared key leaves the question open, i.e. the per-member reading stays possible)
+                                if acc[i].optional || p.optional {
+                                    return None;
+                                }
+                                let (l, r) = (self.string_consts(&acc[i].ty, 0)?, self.string_consts(&p.ty, 0)?);
+                                if l.iter().all(|x| r.contains(x)) {
+                                    // left is narrower: keep
+                                } else if r.iter().all(|x| l.contains(x)) {
+                                    acc[i] = p;
+                                } else {
+                                    return None;
+                                }
+                            }
+                        }
+                    }
+                }
+                Some(acc)
+            }
+            _ => None,
+        }
+    }
+    fn string_consts(&self, d: &D, depth: usize) -> Option<Vec<String>> {
+        if depth > 12 {
+            return None;
+        }
+        match self.head(d) {
+            D::StrLit(s) => Some(vec![s.clone()]),
+            D::Union(ms) => {
+                let mut out = vec![];
+                for m in ms {
+                    out.extend(self.string_consts(m, depth + 1)?);
+                }
+                Some(out)
+            }
+            D::Never => Some(vec![]),
+            _ => None,
+        }
+    }
+    /// the members of a union with nested unions and references to unions expanded, `never` dropped
+    fn flat_union(&self, ms: &[D]) -> Option<Vec<D>> {
+        fn flat<'x>(r: &Ref<'x>, d: &D, out: &mut Vec<D>, depth: usize) -> bool {
+            if depth > 12 {
+                return false;
+            }
+            match r.head(d) {
+                D::Union(inner) => inner.iter().all(|x| flat(r, x, out, depth + 1)),
+                D::Never => true,
+                other => {
+                    out.push(other.clone());
+                    true
+                }
+            }
+        }
+        let mut out = vec![];
+        for m in ms {
+            if !flat(self, m, &mut out, 0) {
+                return None;
+            }
+        }
+        Some(out)
+    }
+    /// the shapes of the (flattened) members of a union when the compiler turns it into a discriminated dispatch
+    fn du_shapes(&self, flat_members: &[D]) -> Option<Vec<Vec<Prop>>> {
+        if flat_members.len() < 2 {
+            return None;
+        }
+        let shapes: Vec<Vec<Prop>> = flat_members.iter().map(|m| self.du_shape(m, 0)).collect::<Option<Vec<_>>>()?;
+        let mut keys: Vec<&String> = shapes.iter().flat_map(|s| s.iter().map(|p| &p.key)).collect();
+        keys.sort();
+        keys.dedup();
+        let is_du = keys.iter().any(|k| {
+            let decls: Vec<&Prop> = shapes.iter().filter_map(|s| s.iter().find(|p| p.key == **k)).collect();
+            decls.len() == shapes.len()
+                && decls.iter().any(|p| (&p.ty, p.optional) != (&decls[0].ty, decls[0].optional))
+                && decls.iter().all(|p| !p.optional)
+                && decls.iter().all(|p| self.string_consts(&p.ty, 0).map(|v| !v.is_empty()).unwrap_or(false))
+        });
+        if is_du { Some(shapes) } else { None }
     }
 
     /// Resolve references at the head of a type.
